@@ -709,14 +709,15 @@ def check_C18(c):
                                "case": {"lines": lines[:20]}})
     c.rep.samples = [{"write_sets_measured": writeset}, {"generated_module": text[:1500]}]
     c.rep.exhaustive = False
-    c.rep.rule = ("(1) every operation of a 21-operation read-only alphabet (element access, slicing, iteration, safe arithmetic and "
-                  "comparison, reductions, products incl. the dispatching Dot, cloning, materialising, formatting, repeat/concat, a private "
-                  "write chain) is run ALONE on shared tensors {contiguous, lazily transposed, sliced view, vectors} with the metadata hooks "
+    c.rep.rule = ("(1) every operation of a %d-operation alphabet (element access, slicing, iteration, safe arithmetic and "
+                  "comparison, reductions, products incl. the dispatching Dot, cloning, materialising, formatting, repeat/concat, and operations "
+                  "on the goroutine's OWN tensors: reuse / reshaped-reuse / wrong-size reuse / incr destinations, in-place results, same-type "
+                  "comparisons, products into own destinations, recycling own tensors through ReturnTensor, own views) is run ALONE on shared tensors {contiguous, lazily transposed, sliced view, vectors} with the metadata hooks "
                   "on, and its writes to shared operands are recorded; (2) spec/Conc.tla is instantiated with exactly these measured step "
                   "lists (MC_conc, generated) and TLC explores every interleaving of 2-3 goroutines x programs of <=2 operations, checking "
                   "SharedNeverWritten, NoReadDuringForeignWrite and ResultsSequential; (3) 2-16 goroutines run seeded random programs over "
                   "the shared tensors plus private ones under the race detector with GOMAXPROCS in {1,2,4,16} and injected yields, every "
-                  "result compared with the result of the same program run alone; plus a pairwise stress of all 231 operation pairs")
+                  "result compared with the result of the same program run alone; plus a pairwise stress of all operation pairs") % len(writeset)
     c.rep.assumptions = ["that the code has no shared accesses other than the hooked metadata writes is observed by the Go race detector, not proved",
                          "goroutines that write a shared tensor are outside the property"]
 
